@@ -38,6 +38,9 @@ class Repo:
                 s.trees[name] = ast.parse(src, filename=path)
             except SyntaxError as exc:
                 raise AnalysisError('cannot parse %s: %s' % (path, exc))
+        from .canon import canonicalise
+        for name in list(s.trees):
+            s.trees[name] = canonicalise(s.trees[name])
         for t in s.trees.values():
             for node in ast.walk(t):
                 if isinstance(node, (ast.FunctionDef, ast.AsyncFunctionDef, ast.Lambda)) and node.args.posonlyargs:
